@@ -1,7 +1,7 @@
 """C20 Cutting propagation short never makes a claim wrong."""
 import re
 
-from astlib import calls, find_fn, find_item, method_calls, render, site, strip, walk
+from astlib import last, calls, find_fn, find_item, method_calls, render, site, strip, walk
 from pathcond import conditions_to, fact_str, facts_str, let_env
 import c06
 import c07
@@ -66,6 +66,9 @@ def rule_cut(ctx, R="C20.1"):
         writes = [render(n)[:60] for n in walk(t["then"]) if (n["k"] == "MethodCall" and n["method"] in WRITERS) or (n["k"] == "Call" and not render(n["func"]).startswith(("debug", "trace", "warn")))]
         ctx.check(R, key + "/cut/writes-nothing", not writes, "calls on the cut edge: %s" % writes, site(CFG, t))
         ctx.check(R, key + "/cut/no-else", t["else"] is None, "the time test must not select between two propagation modes", site(CFG, t))
+        # a cut leaves propagation incomplete: nothing in the function may insist on completeness
+        insist = [m_["name"] for m_ in walk(fn["body"]) if m_["k"] == "Macro" and last(m_["name"]) in ("assert", "assert_eq", "assert_ne", "debug_assert", "debug_assert_eq", "panic", "unreachable", "todo", "unimplemented")] + [m_["method"] for m_ in walk(fn["body"]) if m_["k"] == "MethodCall" and m_["method"] in ("unwrap", "expect")]
+        ctx.check(R, key + "/no-completeness-assertion", not insist, "assertions / unwraps in the propagation driver: %s (after a cut not every node has a fact)" % insist, site(CFG, fn))
         # no panicking duration arithmetic
         arith = [render(n)[:80] for n in walk(fn["body"]) if n["k"] == "Binary" and n["op"] in ("-", "-=") and ("elapsed()" in render(n) or "DURATION" in render(n))]
         ctx.check(R, key + "/no-duration-subtraction", not arith, "Duration subtraction panics on underflow: %s" % arith, site(CFG, fn))
